@@ -78,7 +78,7 @@ def handle (line : String) : String :=
     -- the specification is simply "nothing dangles"
     match impl with
     | [nops, nrefs, nunres, _nschemas, _names, sameTwice, samePerm] =>
-      let cls := s!"refs-ops{if nops == "0" then "0" else "n"}-refs{if nrefs == "0" then "0" else "n"}-{if order.splitOn "," |>.length |> (· ≥ 13) then "full" else "subset"}"
+      let cls := s!"refs-ops{if nops == "0" then "0" else "n"}-refs{if nrefs == "0" then "0" else "n"}-{if order.splitOn "," |>.length |> (· ≥ 16) then "full" else "subset"}"
       -- nothing dangles; regenerating gives the same bytes; so does another registration order
       out id true (b2s (nunres == "0" && sameTwice == "1" && samePerm == "1")) cls "-" "-"
     | _ => bad id "parse-refs"
